@@ -155,6 +155,89 @@ CLAIMS.update({
         design_ref="DESIGN.md §9 C18", note=RUN_NOTE),
 })
 
+CHECK_NOTE = ("Trusted: Coq 8.16.1 kernel incl. vm_compute (no native_compute); no axioms (Print Assumptions of every "
+              "property theorem: Closed under the global context). The theorems are about the Gallina model "
+              "coq/Check/CheckModel.v (a method-by-method mirror of pfdl_tree_visitor.py's duplicate handling and variable "
+              "table, struct.py::parse_json, semantic_error_checker.py, helpers.get_type_of_variable_list and parse_string, "
+              "with the Python exceptions of unguarded lookups explicit); what ties the model to /repo is the differential "
+              "correspondence run on every invocation (sampling, not proof): parse_string in the console and the "
+              "editor-extension format and CheckModel.validate (vm_compute inside coqc) are run on the same generated "
+              "programs and compared on exception class, verdict and the multiset of (message kind, line). Generated "
+              "well-formed programs are certified by the proved decision procedure wf_dec, mutants by wf_dec = false; "
+              "failures are attributed to a known finding only when its Gallina shape predicate holds of the input. "
+              "See docs/check_component.md.")
+
+CLAIMS.update({
+    "C09": dict(
+        text="PARTIAL (static half). Full statement 'accepted => sched_safe' is REFUTED on the faithful model "
+             "(C09_accepted_is_sched_safe_refuted: recursion D8, the call inside a parallel loop D9, loop limits D10, guard "
+             "types D12b are not checked). Proved for all programs: acceptance implies productionTask exists, every task call "
+             "the validator looks at (any nesting, Parallel blocks) names a defined task with matching arity, parallel loops "
+             "are a single call, variable parameters are declared (C09_accepted_is_sched_safe_checked); under the executable "
+             "guard 'none of the four unchecked shapes' acceptance implies sched_safe (C09_accepted_is_sched_safe_partial). "
+             "The run-time half (sched_safe => no exception, order completes) is the hypothesis interface of the RefSem/NetModel "
+             "theorems (C01) and is exercised here on the implementation: every accepted member of the well-formed family, of "
+             "the single-fault mutants and of the near-valid variants is constructed, started and driven to the end with "
+             "well-typed values in a random completion order.",
+        technique="Coq proof (contrapositives of the C10 rejection theorems) + vm_compute refutation witnesses + driving "
+                  "accepted programs on the implementation + differential correspondence of the validator",
+        design_ref="DESIGN.md §9 C09, docs/check_component.md", note=CHECK_NOTE),
+    "C10": dict(
+        text="PARTIAL. Proved for all programs: the descent lemma (C10_descent: messages and invalidity of a sub-statement "
+             "propagate to the enclosing statement at any nesting depth, by induction on the statement tree; stops at parallel "
+             "loops) and 18 theorems 'has_fault_k p = true -> validate p <> Ok []' for decidable fault predicates: unknown task "
+             "(plain, in Parallel), unknown struct literal, unknown type (struct attribute, task input, call output), undeclared "
+             "variable, unknown attribute, literal with missing / unknown attribute, duplicate struct / task / attribute / task "
+             "input / call output, no productionTask, undeclared task output, wrong arity, ill-formed parallel loop; under "
+             "crash_free 'not accepted' is 'at least one message' (C10_reported_under_guard). REFUTED on the faithful model "
+             "(vm_compute witnesses): recursion (D8), faults inside a parallel loop (D9), loop limits (D10), nested-literal "
+             "rules (D12a), guard typing (D12b), and operands/paths/nested keys that raise instead of reporting (D11). "
+             "Classes without a theorem (argument types, operand types, literal value types and lengths, deeper path steps) "
+             "are covered by correspondence only: all 89 catalogue entries x 8 position kinds x wrapping depth 0..3.",
+        technique="Coq proof (induction on the statement tree, local lemma per fault class) + vm_compute refutation witnesses "
+                  "+ fault injection with differential correspondence",
+        design_ref="DESIGN.md §9 C10 and Appendix B, docs/check_component.md", note=CHECK_NOTE),
+    "C11": dict(
+        text="PARTIAL. WF (coq/Check/Typing.v) transcribes the documented rules R1-R9; wf_dec decides it (C11_wf_dec_correct). "
+             "Full statement 'WF p -> validate p = Ok []' is REFUTED on the faithful model (string attribute under ==, "
+             "parenthesised string operand, array element in a guard, element of a primitive array as parameter: D20, D11a, "
+             "D11c). Proved: C11_wf_accepted_partial 'WF p -> c11_guard p = true -> validate p = Ok []' for all programs - every "
+             "construct (visitor, struct definitions, task signatures, variable / path / array-element / struct-literal "
+             "parameters with nested structs and arrays, calls matched by position and type, guards over all operators, all "
+             "statement kinds at any nesting) - where c11_guard is an executable predicate excluding exactly the refuting "
+             "shapes (inhabited; 336 of 336 generated family members). Order independence is NOT proved: every generated "
+             "program is also run with its definitions permuted and re-interleaved (same verdict, model agrees).",
+        technique="Coq proof (induction over statements, expressions, paths and struct literals against the declarative "
+                  "typing rules) + certified generation + differential correspondence",
+        design_ref="DESIGN.md §9 C11, docs/check_component.md", note=CHECK_NOTE),
+    "C16": dict(
+        text="PARTIAL. Proved for all ASTs / Process objects: the verdict is valid iff nothing was printed "
+             "(C16_verdict_iff_no_message); every check_* method and validate_process return True iff they printed nothing "
+             "(C16_checker_flag_matches_output); validation terminates (structural recursion, no fuel). 'A verdict for every "
+             "program' is REFUTED on the faithful model with one vm_compute witness per unguarded lookup (10 crash sites, D11a/"
+             "D11c/D11d) and proved under the executable guard crash_free that excludes exactly those shapes "
+             "(C16_always_a_verdict_partial, C16_no_exception_partial). NOT covered by a theorem: arbitrary strings (lexer, "
+             "parser, json.loads) - a fuzz stream of character/token mutations, truncations, random token sequences and random "
+             "bytes is checked by a monitor (verdict, no exception, valid iff silent, same in both formats; invalid => "
+             "start() False, fire_event False); it found D22 (JSON strings json.loads rejects) and D23 (text that names a "
+             "directory).",
+        technique="Coq proof (closure of the check combinators, mirrored guard) + vm_compute refutation witnesses + "
+                  "differential correspondence + fuzzing with a monitor",
+        design_ref="DESIGN.md §9 C16, docs/check_component.md", note=CHECK_NOTE),
+    "C19": dict(
+        text="PARTIAL. Proved on AST positions for all programs: every message printed while a statement is checked carries a "
+             "context inside that statement (C19_messages_point_into_statement); a sub-statement found invalid at any depth is "
+             "reported with a context inside that sub-statement (C19_fault_located, with the descent lemma); task messages "
+             "point into the task; a missing productionTask is reported at line 1; the checker never prints without a position. "
+             "'Every message has a position' is REFUTED (the visitor's array-length message has line 0, D21) and proved when no "
+             "array length is given by a name. The position -> line arithmetic of the printer and the equality of the console "
+             "and editor-extension formats are NOT proved: they are checked by correspondence (fault x position x layout "
+             "variants that shift lines x both formats; lines compared with the model through the printer's line map).",
+        technique="Coq proof (context-locality invariant over the checker, descent lemma) + fault injection under layout "
+                  "variants with differential correspondence in both output formats",
+        design_ref="DESIGN.md §9 C19, docs/check_component.md", note=CHECK_NOTE),
+})
+
 NOT_YET = "check not built yet in this revision (see DESIGN.md §11 staging); will be claimed when its theorem and correspondence slice exist"
 
 
